@@ -50,7 +50,7 @@ if _missing or _stale:
     # a class was added to / removed from the library: the zoo must be told (harness error, exit 2)
     raise RuntimeError(f"C07 zoo out of date: classes without driver or NOT_DRIVEN entry {_missing}; unknown classes {_stale}")
 
-RUNS = {"quick": 60 * len(NAMES), "thorough": 400_000}       # 60 seeds per driver on average (>= 20 each, see runs.<Driver>)
+RUNS = {"quick": 45 * len(NAMES), "thorough": 400_000}       # 45 seeds per driver on average (>= 20 each, see runs.<Driver>)
 WALL = {"quick": 58, "thorough": 1500}
 BATCH = {"quick": 25, "thorough": 150}
 SELFTEST_RUNS = 24
@@ -88,8 +88,10 @@ ASSUMPTIONS = [
     "is taken to be within contract (nothing in the docstrings restricts them to time zero)",
     "exceptions raised by repository code (e.g. PageCache re-entrancy, LWWRegister.set via CRDTStore) end the run without a C07 "
     "verdict; they are counted as repo_exception.* and listed in the report",
-    "simulations start at Instant.Epoch; start_event()/start_events() APIs that stamp relative to the epoch are not exercised "
-    "with a non-zero Simulation start_time",
+    "Simulation(start_time=...) is generated (epoch in 4 of 7 runs, else 1 s + 7 ns, 1 h + 1 ns, 1 day + 123 456 789 ns); harness "
+    "times and absolute-time configuration (shift boundaries, gate schedules, appointments, fault windows) are given relative to "
+    "the start and converted to absolute floats that quantise to the intended nanosecond; start events handed out by components "
+    "are judged against the start instant when they are scheduled (the push monitor is installed before sim.schedule)",
     "spin thresholds: > %d consecutive deliveries at one timestamp (workloads have <= 40 arrivals), or the delivery cap %d reached "
     "while the clock advanced < %d ns per delivery over the last %d deliveries" % (zoo.SPIN_CAP, zoo.DELIVERY_CAP,
                                                                                  zoo.CREEP_NS_PER_DELIVERY, zoo.CREEP_WINDOW),
